@@ -335,6 +335,9 @@ func (w *World) verifyUnit(fn *ssa.Function, defaultSafety []string) *UnitResult
 			}
 		}
 	}
+	if containsStr(defaultSafety, "C15") {
+		fr.readDisciplineObs()
+	}
 	if containsStr(defaultSafety, "C13") {
 		fr.determinismObs() // frame obligations need no contract: they are generated for whatever is checked under C13
 	}
